@@ -392,6 +392,11 @@ fn msg_proto(m: &Msg, rich: bool) -> DescriptorProto {
                 label: if rich { Some(1) } else { None },
                 r#type: if rich { Some(9) } else { None },
                 json_name: if rich { f.clone() } else { None },
+                // rich descriptors: the first fields are members of the message's oneofs, every other one
+                // as a proto3 `optional` field (its oneof is then "synthetic" - still a declared name that
+                // must resolve: seed C19e)
+                oneof_index: if rich && i < m.oneofs.len() { Some(i as i32) } else { None },
+                proto3_optional: if rich && i < m.oneofs.len() && i % 2 == 0 { Some(true) } else { None },
                 ..Default::default()
             })
             .collect(),
